@@ -72,7 +72,7 @@ theorem rvs_build_eq_eval (d : Nat → Nat → List Rat) (m : Nat) (hd : ∀ i k
   | subSC a c ih =>
     intro σ
     have hl := evalE_length d m hd a σ
-    simp only [build, rvs, evalE, ih]
+    simp only [build, rvs, evalE, ih, List.map_replicate]
     rw [zipWith_replicate_right _ _ _ _ hl]
     simp [Rat.sub_eq_add_neg]
   | subCS c a ih =>
